@@ -222,6 +222,13 @@ class _MetaPyTree(type):
                         "The string `struct` in `jaxtyping.PyTree[leaftype, struct]` "
                         "cannot be the empty string."
                     )
+                if pieces[0] == "..." and pieces[-1] == "...":
+                    raise ValueError(
+                        "The string `struct` in `jaxtyping.PyTree[leaftype, struct]` "
+                        "must name at least one structure, and `...` may appear either "
+                        "at the start or at the end, but not both. Got "
+                        f"'{X.structure}'."
+                    )
                 for piece_index, piece in enumerate(pieces):
                     if (piece_index == 0) or (piece_index == len(pieces) - 1):
                         if piece == "...":
